@@ -75,6 +75,8 @@ def replay (j : Json) : R Verdict := do
           if dis.isNone then dis := some s!"op {i}: mutation result not accepted by mutAcc (mp {repr mp})"
         if !(conf s out) then pf := ("C01", s!"op {i}: mutation produced a value that does not conform to the spec") :: pf
         if mp == .zero && out != cross then pf := ("C13", s!"op {i}: mutation with probability 0 changed its input") :: pf
+        if mp == .one && !(liveOne s cross out) then
+          pf := ("C17", s!"op {i}: mutation with probability 1 left a boolean / enum / variant / optional / map size unchanged") :: pf
         if !(resizeLocal mp s cross out) then
           pf := ("C13", s!"op {i}: a resizable map was not resized by exactly one fresh/removed key (mutation probability class {repr mp})") :: pf
     -- adaptive parameters of in-run records (C14): probabilities in [0,1], scale positive and finite
